@@ -1037,6 +1037,78 @@ def directed_enums():
     return out
 
 
+def directed_rings():
+    """C03: mutually supporting predicate rings. A_i(x)'s rule opens a goal A_{i+1}(x) with the same argument (ring length 2-4, one to
+    three rings) and a goal of every member stands at top level, so that the cheap way to close the open goals is to unify them with
+    each other around the ring: each goal justified only by unification with a goal that is its own causal descendant (a cycle closed
+    by two or more CROSS-unifications). solver::new_causal_link forbids it through the positions of the flaws. Variants:
+      alt+inc  the first rule has a second, more expensive disjunct (a chain of plain goals) and there is a fact whose argument a
+               constraint makes incompatible only during the search: the planner has finite estimates for the ring, and the only
+               legitimate plan is the expensive disjunct (solved acyclically in milliseconds on a correct planner)
+      legal    a compatible fact / the expensive disjunct offers a legal alternative
+      pure     only goals (or only the incompatible fact): no finite plan exists, a correct planner extends the graph for ever -
+               these few problems get a short time limit and may only end as "timeout" or "unsolvable"
+    A reported solution is judged by the verified checker: a cyclic support graph is a concrete violation with the problem as replay.
+    Returns (program, text, time limit in seconds)."""
+    out = []
+    R = lambda v: num(v, False)
+
+    def ring(prefix, n, alt_len=0):
+        preds = []
+        for i in range(n):
+            nxt = '%s%d' % (prefix, (i + 1) % n)
+            sub = ('formula', False, 'nx', [], nxt, [('x', var('x'))])
+            body = [sub]
+            if alt_len and i == 0:
+                body = [('disj', prefix + 'dj', [[sub], [('formula', False, 'alt', [], prefix + 'Alt0', [('x', var('x'))])]])]
+            preds.append({'name': '%s%d' % (prefix, i), 'owner': None, 'params': [('x', 'real')], 'supers': [], 'body': body})
+        for j in range(alt_len):
+            preds.append({'name': '%sAlt%d' % (prefix, j), 'owner': None, 'params': [('x', 'real')], 'supers': [],
+                          'body': [('formula', False, 'a', [], '%sAlt%d' % (prefix, j + 1), [('x', var('x'))])] if j < alt_len - 1 else []})
+        return preds
+
+    def goals(prefix, n, arg):
+        return [('formula', False, 'g%s%d' % (prefix, i), [], '%s%d' % (prefix, i), ([('x', arg)] if arg is not None else [])) for i in range(n)]
+
+    def incompatible(prefix, member, other):
+        xf = 'xf' + prefix
+        return [('local', 'real', xf, None), ('formula', True, 'f' + prefix, [], '%s%d' % (prefix, member), [('x', var(xf))]),
+                ('expr', ('ne', var(xf), var(other, 'x')))]
+    cases = []
+    k = 0
+    for n in (2, 3, 4):
+        for arg in (R(1), None):
+            for alt_len in (1, 3):
+                k += 1
+                # alt+inc, the incompatible fact on a varying member of the ring
+                cases.append((ring('A', n, alt_len), goals('A', n, arg) + incompatible('A', k % n, 'gA0'), 5.0))
+            # legal alternatives
+            cases.append((ring('A', n), goals('A', n, arg) + [('formula', True, 'f', [], 'A1', ([('x', arg)] if arg is not None else []))], 5.0))
+            cases.append((ring('A', n, 3), goals('A', n, arg), 5.0))
+            cases.append((ring('A', n), goals('A', n, arg) + incompatible('A', 1, 'gA0') + [('formula', True, 'f0', [], 'A0', ([('x', arg)] if arg is not None else []))], 5.0))
+    # two and three rings at once (different arguments), each with its expensive disjunct and its incompatible fact
+    for nr in (2, 3):
+        preds, main = [], []
+        for j in range(nr):
+            pre = 'ABC'[j]
+            n = 2 + (j % 2)
+            preds += ring(pre, n, 2)
+            main += goals(pre, n, R(j + 1)) + incompatible(pre, 1, 'g%s0' % pre)
+        cases.append((preds, main, 5.0))
+    # the members of the ring share one argument variable
+    cases.append((ring('A', 2, 2), [('local', 'real', 'v', None)] + goals('A', 2, var('v')) + incompatible('A', 0, 'gA1'), 5.0))
+    cases.append((ring('A', 3, 1), [('local', 'real', 'v', None)] + goals('A', 3, var('v')) + incompatible('A', 2, 'gA0'), 5.0))
+    # pure rings: no finite plan
+    cases.append((ring('A', 2), goals('A', 2, R(1)), 0.6))
+    cases.append((ring('A', 3), goals('A', 3, None), 0.6))
+    cases.append((ring('A', 2), goals('A', 2, R(1)) + incompatible('A', 1, 'gA0'), 0.6))
+    cases.append((ring('A', 4), goals('A', 4, R(1))[:2], 0.6))
+    for preds, main, tmo in cases:
+        prog = {'classes': [], 'preds': preds, 'main': main}
+        out.append((prog, A.pp_program(prog), tmo))
+    return out
+
+
 def directed_temporal():
     """Problems aimed at each conjunct of the temporal rules: on a correct planner they are unsolvable; if one of the
     constraints of Interval / Impulse is lost they become solvable with an ill-formed active atom (which the checker rejects)."""
